@@ -92,6 +92,9 @@ def run(ctx) -> None:
     ctx.rule("R3", "no VCS mutation / hook is reachable in _update after a caught rewrite failure")
     ctx.rule("R4", "the diff (dry) path raises NoPatternMatch only where the write path does")
     ctx.rule("R5", "a pattern without a match always fails its file: rewrite_lines returns normally only when every pattern was found")
+    ctx.rule("R6", "prerequisite: 'the new version is rejected' - the gate rejects every version that is not strictly greater / does not match, before anything is written (C01/R1-R3)")
+    from sa.report import run_prerequisite
+    run_prerequisite(ctx, "C01", ("R1", "R2", "R3"), "R6")
 
     from checks.c03 import all_patterns_found_rule
     for eng in ENGINES:
